@@ -166,3 +166,11 @@ pub fn extract_str<'a>(text: &'a str, key: &str) -> Option<&'a str> {
     let end = text[start..].find('"')? + start;
     Some(&text[start..end])
 }
+
+/// Value of a numeric field of a flat JSON object written by `render`.
+pub fn extract_u64(text: &str, key: &str) -> Option<u64> {
+    let pat = format!("\"{}\": ", key);
+    let start = text.find(&pat)? + pat.len();
+    let digits: String = text[start..].chars().take_while(|c| c.is_ascii_digit()).collect();
+    digits.parse().ok()
+}
